@@ -248,6 +248,15 @@ func (r *Run) Fail(f Failure) {
 	}
 	if n < 5 {
 		r.Sum.Failures = append(r.Sum.Failures, f)
+		// also on disk at once: if the library later takes the whole process down
+		// (a panic on one of its own goroutines, an allocation of gigabytes), what
+		// was found until then is still reported with its input
+		if fh, err := os.OpenFile(filepath.Join(r.Out, "failures.jsonl"), os.O_CREATE|os.O_WRONLY|os.O_APPEND, 0o644); err == nil {
+			if data, err := json.Marshal(f); err == nil {
+				_, _ = fh.Write(append(data, '\n'))
+			}
+			_ = fh.Close()
+		}
 	}
 }
 
